@@ -25,7 +25,65 @@ def plus(st, a, c):
             return v
     t = fresh('p')
     z.add_eq(t, a, c)
+    note_shift(st, a, t, c)
     return t
+
+
+# ---- auxiliary difference terms: d == hi - lo, kept exact while hi / lo are shifted by constants.  A zone
+# relates two terms; "len - i == end - start" relates four, and is what a counted loop with a manual cursor
+# (`for _ in 0..len0 { .. i += 1 | len -= 1 .. }`) needs for `i < len`.  With d1 = len - i and d2 = end - start
+# as terms, the invariant is the difference constraint d1 == d2.
+def aux_get(st, hi, lo):
+    z = st.zone
+    for h, l, d in st.aux:
+        if (h is hi or z.entails_eq(h, hi)) and (l is lo or z.entails_eq(l, lo)):
+            return d
+    return None
+
+
+def aux_make(st, hi, lo):
+    """only when lo == 0 is entailed (then d == hi is a difference constraint)"""
+    z = st.zone
+    if aux_get(st, hi, lo) is not None or not z.entails_eq(lo, 0) or isinstance(hi, int):
+        return
+    d = fresh('x')
+    z.add_eq(d, hi)
+    st.aux = (st.aux + ((hi, lo, d),))[-8:]
+
+
+def note_shift(st, old, new, c):
+    """new == old + c was just established: shifted copies of the auxiliary differences that mention old"""
+    if not st.aux or isinstance(old, int) or isinstance(new, int):
+        return
+    z = st.zone
+    add = []
+    for h, l, d in st.aux:
+        dc = None
+        hit_h = h is old or (isinstance(h, Term) and z.entails_eq(h, old))
+        hit_l = (not hit_h) and (l is old or (isinstance(l, Term) and z.entails_eq(l, old)))
+        if hit_h:
+            dc = c
+        elif hit_l:
+            dc = -c
+        if dc is None:
+            continue
+        # all terms are unsigned: the shifted difference may only be introduced when it cannot be negative
+        if dc < 0 and not z.entails_le(-dc, d):
+            continue
+        if isinstance(d, int):
+            nd = d + dc
+        else:
+            nd = None
+            for v in z.vars:
+                if v is not d and isinstance(v, Term) and v.name != '0' and z.entails_eq(v, d, dc):
+                    nd = v
+                    break
+            if nd is None:
+                nd = fresh('x')
+                z.add_eq(nd, d, dc)
+        add.append((new, l, nd) if hit_h else (h, new, nd))
+    if add:
+        st.aux = (st.aux + tuple(add))[-8:]
 
 
 def in_range(z, idx, rng):
